@@ -96,6 +96,12 @@ type c04Obs struct {
 	Panic      bool    `json:"panic"`
 }
 
+// the swarm as the registry may ask it about: no other connection of the peer is open
+type c04Swarm struct{ network.Network }
+
+func (c04Swarm) Connectedness(peer.ID) network.Connectedness { return network.NotConnected }
+func (c04Swarm) ConnsToPeer(peer.ID) []network.Conn            { return nil }
+
 type c04Reg struct {
 	mu      sync.Mutex
 	slowMs  int
@@ -407,7 +413,7 @@ func c04Run(t *testing.T, in *c04In, w *c04World, ed bool) (obs c04Obs) {
 			reg.mu.Unlock()
 			svc.handleConnectReq(&c04Stream{rd: bytes.NewReader(pw), conn: ls.conn, writeFail: -1})
 			n.connected = nil
-			svc.host.(*c04Host).onClosePeer = func(peer.ID) { svc.peers.Disconnected(nil, ls.conn) }
+			svc.host.(*c04Host).onClosePeer = func(peer.ID) { svc.peers.Disconnected(c04Swarm{}, ls.conn) }
 			reg.mu.Lock()
 			reg.answer, reg.lookups = in.Registered, 0
 			reg.mu.Unlock()
